@@ -138,153 +138,167 @@ func TestC13_Literal(t *testing.T) {
 func TestC13_Accept(t *testing.T) {
 	hx.Run(t, "C13", "Accept", 20000,
 		"near-miss mutations (trailing commas, bare words, +1/.5/01/1., unterminated strings, raw control characters, invalid UTF-8, trailing garbage, two documents, BOM, byte edits, truncation) of valid documents; oracle = strict RFC 8259 recogniser cross-checked against encoding/json.Valid: json.ParseExpression errors iff rejected, json.Parse additionally needs an object/array root; non-trivial = the mutation changed the recogniser's verdict; distinct by text",
-		func(c *hx.Case) {
-			t := c.T
-			doc := gen.DrawJSON(t, gen.JSONOpts{Depth: 3})
-			base, _ := gen.RenderJSON(doc, rchooser{t}, rapid.Bool().Draw(t, "wild"))
-			text, kinds := gen.MutateJSON(t, base)
-			c.Set("json", text)
-			c.Set("base", base)
-			if hugeExponent.MatchString(text) {
-				// U5: number literals with exponents beyond 4 digits are excluded (known slow path)
-				c.Class("excluded_huge_exponent")
-				c.Done(false, "")
-				return
-			}
-			for _, k := range kinds {
-				c.Class("mut_" + k)
-			}
-			verdict, root := jsonAcceptance(c, text)
-			var diags, fdiags hcl.Diagnostics
-			var file *hcl.File
-			c.Guard("json.ParseExpression", func() { _, diags = hcljson.ParseExpression([]byte(text), "t.json") })
-			c.Guard("json.Parse", func() { file, fdiags = hcljson.Parse([]byte(text), "t.json") })
-			if file == nil || file.Body == nil {
-				c.Failf("nil-file", "json.Parse returned a nil file/body")
-			}
-			switch verdict {
-			case ref.JSONValid:
-				c.Class("accept")
-				if diags.HasErrors() {
-					c.Failf("valid-json-rejected", "valid JSON rejected by ParseExpression: %s", diagStr(diags))
-				}
-				if root == ref.RootObject || root == ref.RootArray {
-					if fdiags.HasErrors() {
-						c.Failf("valid-json-file-rejected", "valid JSON with object/array root rejected by Parse: %s", diagStr(fdiags))
-					}
-				} else if !fdiags.HasErrors() {
-					c.Failf("scalar-root-accepted", "json.Parse accepted a root that is neither object nor array")
-				}
-			case ref.JSONInvalid:
-				c.Class("reject")
-				if !diags.HasErrors() {
-					c.Failf("invalid-json-accepted", "ParseExpression accepted text that is not valid JSON")
-				}
-				if !fdiags.HasErrors() {
-					c.Failf("invalid-json-file-accepted", "Parse accepted text that is not valid JSON")
-				}
-			default:
-				c.Class("unspecified_acceptance")
-				c.Unspecified("bom-or-illformed-utf8-in-string")
-			}
-			c.Done(verdict == ref.JSONInvalid, text)
-		})
+		caseC13Accept)
 }
+
+func caseC13Accept(c *hx.Case) {
+	t := c.T
+	doc := gen.DrawJSON(t, gen.JSONOpts{Depth: 3})
+	base, _ := gen.RenderJSON(doc, rchooser{t}, rapid.Bool().Draw(t, "wild"))
+	text, kinds := gen.MutateJSON(t, base)
+	c.Set("json", text)
+	c.Set("base", base)
+	if hugeExponent.MatchString(text) {
+		// U5: number literals with exponents beyond 4 digits are excluded (known slow path)
+		c.Class("excluded_huge_exponent")
+		c.Done(false, "")
+		return
+	}
+	for _, k := range kinds {
+		c.Class("mut_" + k)
+	}
+	verdict := checkJSONAcceptance(c, text)
+	c.Done(verdict == ref.JSONInvalid, text)
+}
+
+// checkJSONAcceptance compares the parser's verdict on text with the reference recogniser's.
+func checkJSONAcceptance(c *hx.Case, text string) ref.JSONVerdict {
+	verdict, root := jsonAcceptance(c, text)
+	var diags, fdiags hcl.Diagnostics
+	var file *hcl.File
+	c.Guard("json.ParseExpression", func() { _, diags = hcljson.ParseExpression([]byte(text), "t.json") })
+	c.Guard("json.Parse", func() { file, fdiags = hcljson.Parse([]byte(text), "t.json") })
+	if file == nil || file.Body == nil {
+		c.Failf("nil-file", "json.Parse returned a nil file/body")
+	}
+	switch verdict {
+	case ref.JSONValid:
+		c.Class("accept")
+		if diags.HasErrors() {
+			c.Failf("valid-json-rejected", "valid JSON rejected by ParseExpression: %s", diagStr(diags))
+		}
+		if root == ref.RootObject || root == ref.RootArray {
+			if fdiags.HasErrors() {
+				c.Failf("valid-json-file-rejected", "valid JSON with object/array root rejected by Parse: %s", diagStr(fdiags))
+			}
+		} else if !fdiags.HasErrors() {
+			c.Failf("scalar-root-accepted", "json.Parse accepted a root that is neither object nor array")
+		}
+	case ref.JSONInvalid:
+		c.Class("reject")
+		if !diags.HasErrors() {
+			c.Failf("invalid-json-accepted", "ParseExpression accepted text that is not valid JSON")
+		}
+		if !fdiags.HasErrors() {
+			c.Failf("invalid-json-file-accepted", "Parse accepted text that is not valid JSON")
+		}
+	default:
+		c.Class("unspecified_acceptance")
+		c.Unspecified("bom-or-illformed-utf8-in-string")
+	}
+	return verdict
+}
+
+func FuzzC13_Accept(f *testing.F) { hx.Fuzz(f, "C13", "Accept", caseC13Accept) }
 
 // TestC13_FullExpr: in full-expression mode a JSON string denotes what the native
 // template parser assigns to its content; property names are templates too.
 func TestC13_FullExpr(t *testing.T) {
 	hx.Run(t, "C13", "FullExpr", 10000,
 		"template text (rendered from G-TMPL parts, or hostile strings) placed in a JSON string / property name, evaluated with a non-nil context; oracle (differential inside hcl, as the property states) = hclsyntax.ParseTemplate(text).Value(ctx); non-trivial = the template contains a sequence; distinct by text",
-		func(c *hx.Case) {
-			t := c.T
-			sc := gen.DrawScope(t, gen.ScopeOpts{Nulls: 12})
-			var tmpl string
-			hasSeq := false
-			if rapid.IntRange(0, 3).Draw(t, "hostile") == 0 {
-				tmpl = gen.HostileString().Draw(t, "str")
-			} else {
-				g := gen.NewEG(t, sc, gen.ExprOpts{IllTyped: 8, HostileLits: true, NoHeredoc: true, Budget: 12, MaxDepth: 3})
-				parts := g.Parts()
-				if !render.PartsHeredocSafe(parts) {
-					c.Done(false, "")
-					return
-				}
-				tmpl, _ = render.BareTemplate(parts, rchooser{t}, render.Opts{Wild: 1})
-				hasSeq = strings.Contains(tmpl, "${") || strings.Contains(tmpl, "%{")
-			}
-			if !utf8.ValidString(tmpl) {
-				c.Done(false, "")
-				return
-			}
-			c.Set("template", tmpl)
-			c.Set("scope", scopeDump(sc))
-			ctx := evalCtx(sc)
-			feat := map[string]bool{}
-			js := gen.EncodeJSONString(tmpl, rchooser{t}, true, feat)
-			asKey := rapid.IntRange(0, 3).Draw(t, "askey") == 0
-			// the content of a string starts after its opening quote, never at the beginning of a
-			// file, so a leading U+FEFF is content and not a byte order mark
-			nat, ndiags := hclsyntax.ParseTemplate([]byte(tmpl), "t.tmpl", hcl.Pos{Line: 1, Column: 2, Byte: 1})
-			var want cty.Value
-			var wdiags hcl.Diagnostics
-			c.Guard("native template Value", func() { want, wdiags = nat.Value(ctx) })
-			wantErr := ndiags.HasErrors() || wdiags.HasErrors()
-			if asKey {
-				c.Class("as_property_name")
-				text := "{" + js + ": 1}"
-				c.Set("json", text)
-				expr, diags := hcljson.ParseExpression([]byte(text), "t.json")
-				if diags.HasErrors() {
-					c.Failf("valid-json-rejected", "%s", diagStr(diags))
-				}
-				var got cty.Value
-				c.Guard("json Value(ctx)", func() { got, diags = expr.Value(ctx) })
-				// the name must be the template's result converted to string; null/unconvertible = error
-				var wantKey string
-				keyErr := wantErr
-				if !keyErr {
-					if want.IsNull() || !want.IsKnown() {
-						keyErr = true
-					} else if s, err := convertToString(want); err != nil {
-						keyErr = true
-					} else {
-						wantKey = s
-					}
-				}
-				if keyErr != diags.HasErrors() {
-					c.Failf("key-error-flag", "property-name template: native error=%v, json error=%v (%s)", keyErr, diags.HasErrors(), diagStr(diags))
-				}
-				if !keyErr {
-					exp := cty.ObjectVal(map[string]cty.Value{wantKey: cty.NumberIntVal(1)})
-					if !got.RawEquals(exp) {
-						c.Failf("key-value", "got %#v want %#v", got, exp)
-					}
-				}
-			} else {
-				c.Set("json", js)
-				expr, diags := hcljson.ParseExpression([]byte(js), "t.json")
-				if diags.HasErrors() {
-					c.Failf("valid-json-rejected", "%s", diagStr(diags))
-				}
-				var got cty.Value
-				c.Guard("json Value(ctx)", func() { got, diags = expr.Value(ctx) })
-				if wantErr != diags.HasErrors() {
-					c.Failf("error-flag", "native template error=%v, json string error=%v (%s | %s)", wantErr, diags.HasErrors(), diagStr(wdiags), diagStr(diags))
-				}
-				if !wantErr && !got.RawEquals(want) {
-					c.Failf("value", "json string evaluates to %#v, native template to %#v", got, want)
-				}
-				// and in literal-only mode the same string is verbatim
-				var lit cty.Value
-				c.Guard("json Value(nil)", func() { lit, diags = expr.Value(nil) })
-				if diags.HasErrors() || !lit.RawEquals(cty.StringVal(tmpl)) {
-					c.Failf("literal-mode", "literal-only mode gives %#v, want the verbatim string %q", lit, tmpl)
-				}
-			}
-			c.Done(hasSeq, tmpl)
-		})
+		caseC13FullExpr)
 }
+
+func caseC13FullExpr(c *hx.Case) {
+	t := c.T
+	sc := gen.DrawScope(t, gen.ScopeOpts{Nulls: 12})
+	var tmpl string
+	hasSeq := false
+	if rapid.IntRange(0, 3).Draw(t, "hostile") == 0 {
+		tmpl = gen.HostileString().Draw(t, "str")
+	} else {
+		g := gen.NewEG(t, sc, gen.ExprOpts{IllTyped: 8, HostileLits: true, NoHeredoc: true, Budget: 12, MaxDepth: 3})
+		parts := g.Parts()
+		if !render.PartsHeredocSafe(parts) {
+			c.Done(false, "")
+			return
+		}
+		tmpl, _ = render.BareTemplate(parts, rchooser{t}, render.Opts{Wild: 1})
+		hasSeq = strings.Contains(tmpl, "${") || strings.Contains(tmpl, "%{")
+	}
+	if !utf8.ValidString(tmpl) {
+		c.Done(false, "")
+		return
+	}
+	c.Set("template", tmpl)
+	c.Set("scope", scopeDump(sc))
+	ctx := evalCtx(sc)
+	feat := map[string]bool{}
+	js := gen.EncodeJSONString(tmpl, rchooser{t}, true, feat)
+	asKey := rapid.IntRange(0, 3).Draw(t, "askey") == 0
+	// the content of a string starts after its opening quote, never at the beginning of a
+	// file, so a leading U+FEFF is content and not a byte order mark
+	nat, ndiags := hclsyntax.ParseTemplate([]byte(tmpl), "t.tmpl", hcl.Pos{Line: 1, Column: 2, Byte: 1})
+	var want cty.Value
+	var wdiags hcl.Diagnostics
+	c.Guard("native template Value", func() { want, wdiags = nat.Value(ctx) })
+	wantErr := ndiags.HasErrors() || wdiags.HasErrors()
+	if asKey {
+		c.Class("as_property_name")
+		text := "{" + js + ": 1}"
+		c.Set("json", text)
+		expr, diags := hcljson.ParseExpression([]byte(text), "t.json")
+		if diags.HasErrors() {
+			c.Failf("valid-json-rejected", "%s", diagStr(diags))
+		}
+		var got cty.Value
+		c.Guard("json Value(ctx)", func() { got, diags = expr.Value(ctx) })
+		// the name must be the template's result converted to string; null/unconvertible = error
+		var wantKey string
+		keyErr := wantErr
+		if !keyErr {
+			if want.IsNull() || !want.IsKnown() {
+				keyErr = true
+			} else if s, err := convertToString(want); err != nil {
+				keyErr = true
+			} else {
+				wantKey = s
+			}
+		}
+		if keyErr != diags.HasErrors() {
+			c.Failf("key-error-flag", "property-name template: native error=%v, json error=%v (%s)", keyErr, diags.HasErrors(), diagStr(diags))
+		}
+		if !keyErr {
+			exp := cty.ObjectVal(map[string]cty.Value{wantKey: cty.NumberIntVal(1)})
+			if !got.RawEquals(exp) {
+				c.Failf("key-value", "got %#v want %#v", got, exp)
+			}
+		}
+	} else {
+		c.Set("json", js)
+		expr, diags := hcljson.ParseExpression([]byte(js), "t.json")
+		if diags.HasErrors() {
+			c.Failf("valid-json-rejected", "%s", diagStr(diags))
+		}
+		var got cty.Value
+		c.Guard("json Value(ctx)", func() { got, diags = expr.Value(ctx) })
+		if wantErr != diags.HasErrors() {
+			c.Failf("error-flag", "native template error=%v, json string error=%v (%s | %s)", wantErr, diags.HasErrors(), diagStr(wdiags), diagStr(diags))
+		}
+		if !wantErr && !got.RawEquals(want) {
+			c.Failf("value", "json string evaluates to %#v, native template to %#v", got, want)
+		}
+		// and in literal-only mode the same string is verbatim
+		var lit cty.Value
+		c.Guard("json Value(nil)", func() { lit, diags = expr.Value(nil) })
+		if diags.HasErrors() || !lit.RawEquals(cty.StringVal(tmpl)) {
+			c.Failf("literal-mode", "literal-only mode gives %#v, want the verbatim string %q", lit, tmpl)
+		}
+	}
+	c.Done(hasSeq, tmpl)
+}
+
+func FuzzC13_FullExpr(f *testing.F) { hx.Fuzz(f, "C13", "FullExpr", caseC13FullExpr) }
 
 var hugeExponent = regexp.MustCompile(`[0-9][eE][+-]?[0-9]{5,}`)
 
